@@ -365,12 +365,14 @@ func (vc *FuncVC) translateAxioms() {
 
 // ---------------------------------------------------------------- higher-order library functions
 
-type hoHandler func(st *State, fn *ssa.Function, args []Value, pos token.Pos, k func(*State, Value))
+type hoHandler func(st *State, fn *ssa.Function, c *ssa.CallCommon, args []Value, pos token.Pos, k func(*State, Value))
 
 func (vc *FuncVC) higherOrder(fn *ssa.Function) hoHandler {
 	switch fn.String() {
 	case "(*go.etcd.io/bbolt.DB).View", "(*go.etcd.io/bbolt.DB).Update":
 		return vc.hoBoltView
+	case "sort.Slice", "sort.SliceStable":
+		return vc.hoSortSlice
 	}
 	return nil
 }
@@ -378,7 +380,7 @@ func (vc *FuncVC) higherOrder(fn *ssa.Function) hoHandler {
 // hoBoltView: db.View(fn) / db.Update(fn) — the contract's requires are checked, a transaction object satisfying the
 // contract's `unfold` clauses (which talk about the parameter tx) is created, the closure body is executed in place,
 // and the contract's ensures (which may mention `result`, the closure's result) are assumed.
-func (vc *FuncVC) hoBoltView(st *State, fn *ssa.Function, args []Value, pos token.Pos, k func(*State, Value)) {
+func (vc *FuncVC) hoBoltView(st *State, fn *ssa.Function, c *ssa.CallCommon, args []Value, pos token.Pos, k func(*State, Value)) {
 	sp := vc.w.specFor(fn)
 	if sp == nil {
 		vc.unknownCall(st, shortName(fn.String()), fn.Signature, pos, k)
@@ -422,4 +424,180 @@ func (vc *FuncVC) hoBoltView(st *State, fn *ssa.Function, args []Value, pos toke
 		}
 		k(st, res)
 	})
+}
+
+// substTokens replaces whole tokens of an S-expression text.
+func substTokens(s string, m map[string]string) string {
+	if len(m) == 0 {
+		return s
+	}
+	var b strings.Builder
+	i := 0
+	for i < len(s) {
+		c := s[i]
+		if c == '(' || c == ')' || c == ' ' || c == '\n' {
+			b.WriteByte(c)
+			i++
+			continue
+		}
+		j := i
+		for j < len(s) && s[j] != '(' && s[j] != ')' && s[j] != ' ' && s[j] != '\n' {
+			j++
+		}
+		tok := s[i:j]
+		if r, ok := m[tok]; ok {
+			b.WriteString(r)
+		} else {
+			b.WriteString(tok)
+		}
+		i = j
+	}
+	return b.String()
+}
+
+// evalClosurePure evaluates a closure on symbolic arguments in the current state and returns its (single) result as a
+// term over those arguments, with every intermediate definition inlined. ok=false if the closure has several paths.
+func (vc *FuncVC) evalClosurePure(st *State, cl *ClosureVal, args []Term, pos token.Pos) (Term, bool) {
+	st2 := st.clone()
+	base := len(st.pc)
+	declBase := len(vc.sc.decls)
+	type capt struct {
+		st  *State
+		res Value
+	}
+	var got []capt
+	var vargs []Value
+	for _, a := range args {
+		vargs = append(vargs, a)
+	}
+	vc.run(func() {
+		vc.callFunction(st2, cl.Fn, cl.Bind, vargs, pos, func(s3 *State, res Value) {
+			got = append(got, capt{s3, res})
+			panic(pathEnd{})
+		})
+	})
+	if len(got) != 1 {
+		return Term{}, false
+	}
+	rt, ok := got[0].res.(Term)
+	if !ok {
+		return Term{}, false
+	}
+	newNames := map[string]bool{}
+	for _, d := range vc.sc.decls[declBase:] {
+		newNames[d.Name] = true
+	}
+	defs := map[string]string{}
+	for _, a := range got[0].st.pc[base:] {
+		t := a.S
+		if !strings.HasPrefix(t, "(= ") {
+			continue
+		}
+		rest := t[3 : len(t)-1]
+		sp := strings.IndexByte(rest, ' ')
+		if sp < 0 {
+			continue
+		}
+		name := rest[:sp]
+		if !newNames[name] {
+			continue
+		}
+		if _, dup := defs[name]; dup {
+			continue
+		}
+		defs[name] = substTokens(rest[sp+1:], defs)
+	}
+	out := substTokens(rt.S, defs)
+	// the result must not mention constants created during the evaluation (they would be unconstrained)
+	for n := range newNames {
+		if _, isDef := defs[n]; !isDef && containsToken(out, n) {
+			return Term{}, false
+		}
+	}
+	return Term{out, rt.Sort}, true
+}
+
+func containsToken(s, tok string) bool {
+	i := 0
+	for {
+		k := strings.Index(s[i:], tok)
+		if k < 0 {
+			return false
+		}
+		k += i
+		before := k == 0 || s[k-1] == '(' || s[k-1] == ' '
+		after := k+len(tok) == len(s) || s[k+len(tok)] == ')' || s[k+len(tok)] == ' '
+		if before && after {
+			return true
+		}
+		i = k + 1
+	}
+}
+
+// hoSortSlice: sort.Slice(x, less) — the elements of x are permuted and, afterwards, sorted with respect to less.
+// Assumed of the library: it only swaps elements of x and terminates with no i<j such that less(j,i) — for a less that is
+// a strict weak order (not checked).
+func (vc *FuncVC) hoSortSlice(st *State, fn *ssa.Function, c *ssa.CallCommon, args []Value, pos token.Pos, k func(*State, Value)) {
+	vc.trusted["trusted:sort.Slice (permutes the slice; result sorted w.r.t. less)"] = true
+	mi, ok := c.Args[0].(*ssa.MakeInterface)
+	if !ok {
+		vc.unknownCall(st, "sort.Slice on a dynamic value", fn.Signature, pos, k)
+		return
+	}
+	slT, ok := mi.X.Type().Underlying().(*types.Slice)
+	if !ok {
+		vc.unknownCall(st, "sort.Slice on a non-slice", fn.Signature, pos, k)
+		return
+	}
+	s := vc.term(st, mi.X)
+	el := slT.Elem()
+	var cl *ClosureVal
+	switch x := args[1].(type) {
+	case *ClosureVal:
+		cl = x
+	case Term:
+		cl = vc.closures[x.S]
+	}
+	old := st.snapshot()
+	n := SLen(s)
+	vc.havocRange(st, el, s, IntLit(0), n, nil)
+	// permutation: new[i] == old[p(i)] with p a bijection on [0,n)
+	vc.counts["perm"]++
+	p := vc.sc.Func(fmt.Sprintf("perm!%d", vc.counts["perm"]), []Sort{SInt}, SInt)
+	pinv := vc.sc.Func(fmt.Sprintf("perminv!%d", vc.counts["perm"]), []Sort{SInt}, SInt)
+	i := Term{"i!s", SInt}
+	pi := mk(SInt, p, i)
+	qi := mk(SInt, pinv, i)
+	inR := func(t Term) Term { return And(Le(IntLit(0), t), Lt(t, n)) }
+	st.assume(Term{fmt.Sprintf("(forall ((i!s Int)) (! (=> %s (and %s (= %s i!s))) :pattern (%s)))", inR(i).S, inR(pi).S, mk(SInt, pinv, pi).S, pi.S), SBool})
+	st.assume(Term{fmt.Sprintf("(forall ((i!s Int)) (! (=> %s (and %s (= %s i!s))) :pattern (%s)))", inR(i).S, inR(qi).S, mk(SInt, p, qi).S, qi.S), SBool})
+	leaves := map[string]bool{}
+	vc.leafHeaps("[]"+typeKey(el), el, leaves)
+	for _, name := range sortedKeys(leaves) {
+		lt := vc.leafType(el, strings.TrimPrefix(name, "[]"+typeKey(el)))
+		hs := ArraySort(SRef, ArraySort(SInt, vc.sortOf(lt)))
+		nh := st.heap(vc, name, hs)
+		oh := old.heap(vc, name, hs)
+		newEl := Select(Select(nh, SArr(s)), Add(SOff(s), i))
+		oldEl := Select(Select(oh, SArr(s)), Add(SOff(s), pi))
+		st.assume(Term{fmt.Sprintf("(forall ((i!s Int)) (! (=> %s (= %s %s)) :pattern (%s)))", inR(i).S, newEl.S, oldEl.S, pi.S), SBool})
+		// and the other direction, so that facts about old elements reach the new ones
+		oldAt := Select(Select(oh, SArr(s)), Add(SOff(s), i))
+		newAt := Select(Select(nh, SArr(s)), Add(SOff(s), qi))
+		st.assume(Term{fmt.Sprintf("(forall ((i!s Int)) (! (=> %s (= %s %s)) :pattern (%s)))", inR(i).S, oldAt.S, newAt.S, qi.S), SBool})
+	}
+	// sortedness
+	if cl != nil {
+		ci := vc.fresh(st, "less.i", SInt)
+		cj := vc.fresh(st, "less.j", SInt)
+		st3 := st.clone()
+		st3.assume(inR(ci))
+		st3.assume(inR(cj))
+		if lt, ok := vc.evalClosurePure(st3, cl, []Term{ci, cj}, pos); ok && lt.Sort == SBool {
+			body := substTokens(lt.S, map[string]string{ci.S: "i!s", cj.S: "j!s"})
+			st.assume(Term{fmt.Sprintf("(forall ((i!s Int) (j!s Int)) (=> (and (<= 0 i!s) (< i!s j!s) (< j!s %s)) (not %s)))", n.S, substTokens(body, map[string]string{"i!s": "j!s", "j!s": "i!s"})), SBool})
+			vc.lastLess = body
+		}
+	}
+	k(st, nil)
 }
